@@ -111,3 +111,59 @@ def is_private(vis):
 
 def impls_of(ctx, self_ty_sub, trait_sub):
     return [i for i in ctx.facts.impls if i.get("trait") and trait_sub in i["trait"] and self_ty_sub in i["self_ty"]]
+
+
+ITER_WRAPPERS = ("IntoIterator::into_iter", "::iter", "::iter_mut", "Iterator::rev", "Iterator::cloned", "Iterator::copied", "Iterator::enumerate")
+
+
+def iter_source(body, term, getters=None):
+    """for the payload of `next()` on an iterator local: the normalised origin of what is iterated
+    (into_iter/iter/rev/cloned wrappers removed); None if `term` is not such a payload"""
+    t = norm(term, getters)
+    if not (t[0] == "field" and t[1][0] == "variant" and t[1][2] == "Some"):
+        return None
+    c = t[1][1]
+    if not (c[0] == "call" and c[1].endswith("Iterator::next") and len(c[2]) == 1):
+        return None
+    it = c[2][0]
+    d = norm(body.def_origin(it), getters) if it[0] == "local" else it
+    while d[0] == "call" and len(d[2]) >= 1 and any(d[1].endswith(w) for w in ITER_WRAPPERS):
+        d = d[2][0]
+    return d
+
+
+def range_of(body, term, getters=None):
+    """(lo, hi, inclusive) when `term` (an iterator local or expression) is a Range / RangeInclusive; else None"""
+    d = norm(body.def_origin(term), getters)
+    while d[0] == "call" and len(d[2]) >= 1 and any(d[1].endswith(w) for w in ITER_WRAPPERS):
+        d = d[2][0]
+    if d[0] == "agg" and d[1].endswith("ops::Range::Range") and len(d[2]) == 2:
+        return (d[2][0], d[2][1], False)
+    if d[0] == "call" and d[1].endswith("RangeInclusive::<Idx>::new") and len(d[2]) == 2:
+        return (d[2][0], d[2][1], True)
+    if d[0] == "agg" and d[1].endswith("RangeFrom::RangeFrom") and len(d[2]) == 1:
+        return (d[2][0], None, False)
+    return None
+
+
+def loop_range_of_payload(body, term, getters=None):
+    """range iterated by the loop whose payload is `term`"""
+    t = norm(term, getters)
+    if not (t[0] == "field" and t[1][0] == "variant" and t[1][2] == "Some"):
+        return None
+    c = t[1][1]
+    if not (c[0] == "call" and c[1].endswith("Iterator::next") and len(c[2]) == 1):
+        return None
+    return range_of(body, c[2][0], getters)
+
+
+def ret_origin(body, getters=None):
+    return norm(body.local_origin(0), getters)
+
+
+def callers_of(ctx, callee_exact, include_tests=False):
+    out = []
+    for b in ctx.facts.all_bodies(include_tests):
+        for bi, t in b.calls(exact=callee_exact):
+            out.append((b, bi, t))
+    return out
